@@ -1,0 +1,76 @@
+//go:build verif
+
+// Contracts for package tokenV2, checked by /verif/govc (comment-only; not part of any normal build).
+
+package tokenV2
+
+//@ func (middlewareImpl).checkConnectionAuthorization
+//@   prop C04 C17
+//@   call next #1 requires did(call .skipper #1) && ret(call .skipper #1) == true && arg(call .skipper #1, 0) == context && arg(0) == context
+//@   call jwt.ParseString #1 requires arg(0) == credential && len(arg(1)) == 2
+//@        && arg(1)[0] == ret(call jwt.WithKeySet #1) && arg(call jwt.WithKeySet #1, 0) == authorizedKey.jwkSet
+//@        && arg(1)[1] == ret(call jwt.WithValidate #1) && arg(call jwt.WithValidate #1, 0) == false
+//@   call jwt.Validate #1 requires arg(0) == token && len(arg(1)) == 1
+//@        && arg(1)[0] == ret(call jwt.WithAudience #1) && arg(call jwt.WithAudience #1, 0) == m.audience
+//@   call accessGranted #1 requires [access-only-after-all-checks]
+//@        credential != ""
+//@     && did(call credentialIsSecure #1) && arg(call credentialIsSecure #1, 0) == credential && isNilIface(ret(call credentialIsSecure #1))
+//@     && did(call jwt.ParseString #1) && isNilIface(ret(call jwt.ParseString #1).1) && token == ret(call jwt.ParseString #1).0
+//@     && did(call jwt.Validate #1) && isNilIface(ret(call jwt.Validate #1))
+//@     && did(call bestPracticesCheck #1) && arg(call bestPracticesCheck #1, 0) == token && isNilIface(ret(call bestPracticesCheck #1))
+//@     && authorizedKey.comment == token.Issuer()
+//@     && arg(0) == authorizedKey && arg(1) == context && arg(2) == token && arg(3) == next
+//@   cover call accessGranted #1
+//@   ensures [every-outcome-is-next-granted-or-401]
+//@        did(call next #1) || did(call accessGranted #1)
+//@     || did(call unauthorizedError #1) || did(call unauthorizedError #2) || did(call unauthorizedError #3)
+//@     || did(call unauthorizedError #4) || did(call unauthorizedError #5) || did(call unauthorizedError #6)
+
+//@ func unauthorizedError
+//@   prop C04
+//@   ensures [is-401] result != nil && result.Code == 401
+
+//@ func mandatoryJWTFields
+//@   prop C04
+//@   ensures len(result) == 7 && result[0] == jwt.JwtIDKey && result[1] == jwt.IssuedAtKey && result[2] == jwt.ExpirationKey
+//@        && result[3] == jwt.NotBeforeKey && result[4] == jwt.AudienceKey && result[5] == jwt.IssuerKey && result[6] == jwt.SubjectKey
+//@   modifies nothing
+
+//@ func tokenJTI
+//@   pure
+
+//@ func bestPracticesCheck
+//@   prop C04
+//@   loop 1 invariant forall k int :: 0 <= k && k < $i ==> token.Get(ret(call mandatoryJWTFields #1)[k]).1
+//@   ensures [mandatory-fields] isNilIface(result) ==> token.Get(jwt.JwtIDKey).1 && token.Get(jwt.IssuedAtKey).1 && token.Get(jwt.ExpirationKey).1
+//@        && token.Get(jwt.NotBeforeKey).1 && token.Get(jwt.AudienceKey).1 && token.Get(jwt.IssuerKey).1 && token.Get(jwt.SubjectKey).1
+//@   ensures [jti-is-uuid] isNilIface(result) ==> isNilIface(uuid.Parse(tokenJTI(token)).1)
+//@   ensures [bounded-lifetime-nbf] isNilIface(result) ==> !token.Expiration().After(token.NotBefore().Add(time.Minute * 1470))
+//@   ensures [bounded-lifetime-iat] isNilIface(result) ==> !token.Expiration().After(token.IssuedAt().Add(time.Minute * 1470))
+//@   ensures [iat-before-nbf] isNilIface(result) ==> !token.IssuedAt().After(token.NotBefore())
+//@   ensures [subject] isNilIface(result) ==> token.Subject() != ""
+
+//@ func acceptableSignatureAlgorithm
+//@   prop C04 C17
+//@   pure
+//@   ensures [allow-list] result <==> (algorithm == jwa.ES256 || algorithm == jwa.ES384 || algorithm == jwa.ES512 || algorithm == jwa.RS512 || algorithm == jwa.PS512 || algorithm == jwa.EdDSA)
+//@   ensures [no-none-no-hmac] result ==> algorithm != jwa.NoSignature && algorithm != jwa.HS256 && algorithm != jwa.HS384 && algorithm != jwa.HS512
+
+//@ func credentialIsSecure
+//@   prop C04 C17
+//@   ensures [bounded-length] isNilIface(result) ==> len(credential) <= MaximumCredentialLength
+//@   ensures [parsed-as-jws] isNilIface(result) ==> isNilIface(ret(call jws.ParseString #1).1) && arg(call jws.ParseString #1, 0) == credential
+//@   loop 1 invariant secureSignatureCount == $i
+//@   loop 1 invariant forall k int :: 0 <= k && k < $i ==>
+//@          acceptableSignatureAlgorithm(ret(call (jws.Message).Signatures #1)[k].ProtectedHeaders().Algorithm())
+//@       && isNilIface(ret(call (jws.Message).Signatures #1)[k].ProtectedHeaders().JWK())
+//@       && ret(call (jws.Message).Signatures #1)[k].ProtectedHeaders().JWKSetURL() == ""
+//@       && ret(call (jws.Message).Signatures #1)[k].ProtectedHeaders().X509CertChain() == nil
+//@       && ret(call (jws.Message).Signatures #1)[k].ProtectedHeaders().X509URL() == ""
+//@   ensures [at-least-one-signature] isNilIface(result) ==> len(ret(call (jws.Message).Signatures #1)) > 0
+//@   ensures [all-signatures-acceptable] isNilIface(result) ==> forall k int :: 0 <= k && k < len(ret(call (jws.Message).Signatures #1)) ==>
+//@          acceptableSignatureAlgorithm(ret(call (jws.Message).Signatures #1)[k].ProtectedHeaders().Algorithm())
+//@       && isNilIface(ret(call (jws.Message).Signatures #1)[k].ProtectedHeaders().JWK())
+//@       && ret(call (jws.Message).Signatures #1)[k].ProtectedHeaders().JWKSetURL() == ""
+//@       && ret(call (jws.Message).Signatures #1)[k].ProtectedHeaders().X509CertChain() == nil
+//@       && ret(call (jws.Message).Signatures #1)[k].ProtectedHeaders().X509URL() == ""
